@@ -855,3 +855,14 @@ func splitTop(s string) []string {
 	}
 	return out
 }
+
+func (ct *Contract) macros() map[string]SExpr {
+	if len(ct.Lets) == 0 {
+		return nil
+	}
+	m := map[string]SExpr{}
+	for _, l := range ct.Lets {
+		m[l.Name] = l.Expr
+	}
+	return m
+}
